@@ -222,8 +222,15 @@ def _run_job(job):
     kind, src, isa, arch, o = job
     if kind == "text":
         path = _write(_scratch(), "k_%s.s" % (abs(hash(src)) % 10 ** 10), src)
+        text = src
     else:
         path = os.path.join(env.REPO, src)
+        text = sc.read_kernel(src)
+    # "an unmarked file of more than 100 parsed lines analysed as a whole" (trusted classification)
+    kinds = [r["k"] for _, r in sc.classify(text, isa)]
+    o = dict(o)
+    o["big"] = (not o.get("lines")) and len(kinds) > 100 and not (
+        set(kinds) & {"startmov", "endmov", "begincmt", "endcmt"})
     meta = {"id": o["id"], "isa": isa, "given": (arch or "").upper(), "src": src if kind == "file" else None,
             "text_in": src if kind == "text" else None, "arch": arch, "opts": {k: o.get(k) for k in
                                                                              ("fixed", "ign", "lines", "lcd_timeout")},
@@ -328,6 +335,7 @@ def _job(j):
 
 # ------------------------------------------------------------------------------ main
 def main(tier, seed):
+    _PER_SIG.clear()
     run = Run("C13", tier, seed)
     rnd = random.Random(seed)
     quick = tier == "quick"
@@ -481,7 +489,7 @@ def main(tier, seed):
         if "error" in res:
             etype = res["error"].split(":")[0]
             sig = "C13:exception:%s:%s:%s" % (res["where"], etype, "fixed" if (o.get("fixed")) else "optimal")
-            run.fail(sig, "%s (%s, arch %s, options %s)" % (res["error"], meta.get("src") or o.get("gen") or "generated",
+            _fail(run, sig, "%s (%s, arch %s, options %s)" % (res["error"], meta.get("src") or o.get("gen") or "generated",
                                                            meta.get("arch"), meta.get("opts")), meta)
             continue
         if "unrepresentable" in res:
@@ -492,18 +500,18 @@ def main(tier, seed):
                                                               "src": meta.get("src")})
             continue
         if "layout" in res:
-            run.fail("C13:layout:cell", res["layout"], meta)
+            _fail(run, "C13:layout:cell", res["layout"], meta)
             continue
         c = res["case"]
         if c["problems"]:
-            run.fail("C13:layout:%s" % c["problems"][0].split(":")[0].split(" ")[0],
+            _fail(run, "C13:layout:%s" % c["problems"][0].split(":")[0].split(" ")[0],
                      "report does not follow the layout its header defines: %s" % c["problems"][:2], _slim(c))
             continue
         if c["ports_header"] != c["ports_dict"]:
-            run.fail("C13:layout:port-columns", "header ports %s, dict ports %s" % (c["ports_header"], c["ports_dict"]), _slim(c))
+            _fail(run, "C13:layout:port-columns", "header ports %s, dict ports %s" % (c["ports_header"], c["ports_dict"]), _slim(c))
             continue
         for b in res.get("table_bad", []):
-            run.fail("C13:cell:pp:table:d%d" % b["digits"],
+            _fail(run, "C13:cell:pp:table:d%d" % b["digits"],
                      "value %d/12000 cy printed as %d at %d digits; permitted %s" % (b["v_units"], b["shown"], b["digits"],
                                                                                      b["allowed"]), dict(_slim(c), bad=b))
         table_checked += res.get("table_checked", 0)
@@ -518,7 +526,7 @@ def main(tier, seed):
             if c["blocks"] != exp:
                 if set(c["blocks"]) != set(exp):
                     diff = sorted(set(c["blocks"]) ^ set(exp))
-                    run.fail("C13:blocks:cube:%s" % ",".join(diff),
+                    _fail(run, "C13:blocks:cube:%s" % ",".join(diff),
                              "flags arch=%s big=%s ign=%s to=%s shape=%s: blocks %s, MC_Report emits %s" % (
                                  key + (c["blocks"], exp)), _slim(c))
                 else:
@@ -535,6 +543,45 @@ def main(tier, seed):
 
     # ---- R3: TLC validates every report
     tcases = [{k: c[k] for k in TRACE_KEYS} for c in cases]
+    # self-test of the binding: corrupted copies of real observations must be rejected with the right clause
+    import copy
+
+    selftest = {}
+    for t in tcases:
+        if "cell" not in selftest and any(r["pp"] for r in t["rows"]):
+            u = copy.deepcopy(t)
+            u["id"] = "selftest-cell"
+            [r for r in u["rows"] if r["pp"]][0]["pp"][0][2] += 2
+            selftest["selftest-cell"] = (u, "cell:pp")
+        if "blocks" not in selftest and "ArchWarn" not in t["blocks"]:
+            u = copy.deepcopy(t)
+            u["id"] = "selftest-blocks"
+            u["blocks"] = u["blocks"][:1] + ["ArchWarn"] + u["blocks"][1:]
+            selftest["selftest-blocks"] = (u, "blocks:ArchWarn")
+            selftest["blocks"] = None
+        if "lcdlist" not in selftest and t["lcdcheck"] and len(t["lcdlist"]) > 0:
+            u = copy.deepcopy(t)
+            u["id"] = "selftest-lcdlist"
+            u["lcdlist"] = u["lcdlist"][1:]
+            selftest["selftest-lcdlist"] = (u, "lcdlist")
+            selftest["lcdlist"] = None
+        if "total" not in selftest and t["tot"]["pp"]:
+            u = copy.deepcopy(t)
+            u["id"] = "selftest-total"
+            u["tot"]["pp"][0][2] += 2
+            selftest["selftest-total"] = (u, "total:pp")
+            selftest["total"] = None
+        if "selftest-cell" in selftest:
+            selftest["cell"] = None
+    selftest = {k: v for k, v in selftest.items() if v is not None}
+    rj, r = tlc.batch_validate("Trace_Report", "Trace_Report", [u for u, _ in selftest.values()], tag="c13-selftest")
+    got = {}
+    for cid, clause, _ in rj:
+        got.setdefault(cid, set()).add(clause)
+    for k, (u, want) in selftest.items():
+        if want not in got.get(k, set()):
+            raise RuntimeError("binding self-test failed: %s not rejected with %r (got %s)" % (k, want, got.get(k)))
+    run.note("binding_selftest", sorted(selftest))
     rejects = []
     B = 400
     for i in range(0, len(tcases), B):
@@ -551,7 +598,7 @@ def main(tier, seed):
                 run.divergence(clause, {"id": cid, "src": c.get("src"), "arch": c.get("arch"), "opts": c.get("opts")})
             continue
         detail = _detail(c, clause)
-        run.fail("C13:%s%s" % (clause, (":" + detail) if detail else ""),
+        _fail(run, "C13:%s%s" % (clause, (":" + detail) if detail else ""),
                  "%s (arch %s, %s, options %s): clause %s fails%s" % (
                      c.get("src") or c.get("via"), c.get("arch"), c["id"], c.get("opts"), clause, _explain(c, clause)),
                  _slim(c))
@@ -637,6 +684,20 @@ def _explain(c, clause):
     except Exception:
         pass
     return ""
+
+
+_PER_SIG = {}
+
+
+def _fail(run, sig, what, case, cap=3):
+    """run.fail with at most `cap` replay files per signature, so that the replay slots of one run
+    show different failure classes (further occurrences are only counted)."""
+    _PER_SIG[sig] = _PER_SIG.get(sig, 0) + 1
+    if _PER_SIG[sig] > cap and run._match_known(sig) is None:
+        run.extra.setdefault("further_occurrences", {})
+        run.extra["further_occurrences"][sig] = run.extra["further_occurrences"].get(sig, 0) + 1
+        return "violation"
+    return run.fail(sig, what, case)
 
 
 def _slim(c):
